@@ -21,13 +21,16 @@ Definition testnet_keeps_index : list (family * list N) := [
 ].
 
 (* Entries of CoinsConf (bip_utils/coin_conf/coins_conf.py) that violate [cconf_coherent] today,
-   with the offending key and the value it has: (entry, key, wrong value).
+   with the offending key, the value it has and the value the external registries prescribe:
+   (entry, key, wrong value, right value).  The committed snapshot (Lemmas/Registry.v) holds the
+   RIGHT value; `registry_tables_equal` compares it with the source table repaired at exactly
+   these places.
 
    F19: CoinsConf.BitcoinRegTest has p2wpkh_wit_ver = 1 (copied from the Taproot constant:
    `_BTC_P2WPKH_WIT_VER_RT = _BTC_P2TR_WIT_VER_TN`); P2WPKH is witness version 0 on every
    network.  The value is read by nothing (the encoders use P2WPKHAddrConst.WITNESS_VER), so no
    address changes, but the registry constant is wrong.  Repair: fixes/F19.diff.
    >>> EMPTY THIS LIST (`:= [].`) once fixes/F19.diff is applied to /repo. <<< *)
-Definition cconf_offenders : list (list N * list N * pval) := [
-  (str "BitcoinRegTest", str "p2wpkh_wit_ver", PI 1)
+Definition cconf_offenders : list (list N * list N * pval * pval) := [
+  (str "BitcoinRegTest", str "p2wpkh_wit_ver", PI 1, PI 0)
 ].
